@@ -387,7 +387,10 @@ func (db *DB) executeScopes() (tx *DB) {
 	scopes := db.Statement.scopes
 	db.Statement.scopes = nil
 	for _, scope := range scopes {
-		db = scope(db)
+		// a scope may return a reusable handle (db.WithContext, db.Session): go on
+		// with an instance of it, so that what the callbacks store on the statement
+		// (the started transaction, for one) stays on this statement
+		db = scope(db).getInstance()
 	}
 	return db
 }
